@@ -45,6 +45,12 @@ def plan(tier, seed):
     det = names if tier == "thorough" else [n for n in names if "-nonce-" in n or n in ("SHA1-ECDH_P256-envelope", "SHA512-ECDH_P256-trailing")]
     for i in range(min(16, len(det))):
         specs.append({"name": f"deterministic-{i}", "kind": "deterministic", "bases": det[i::16] if tier == "thorough" else det[i : i + 1]})
+    # large contents: sizes around the thresholds at which an implementation may switch to another decryption path
+    sizes = [65535, 65536, 65537, 2**20 - 16, 2**20 - 15, 2**20, 2**20 + 1, 2**20 + 17, 3 * 2**20 + 5]
+    if tier == "thorough":
+        sizes += [2**16 - 16, 2**18 + 3, 2**24 - 16, 2**24 + 1, 2**25 + 7, 2**26 + 3]
+    for i, sz in enumerate(sizes):
+        specs.append({"name": f"large-{sz}", "kind": "large", "size": sz, "layouts": ["envelope", "trailing"]})
     return specs
 
 
@@ -64,13 +70,15 @@ _LOOP = None
 _N = [0]
 
 
-def execute(rec: Recorder, base: mutate.Base, cache, mutated: bytes, label: str, wit_extra: dict) -> str:
+def execute(rec: Recorder, base: mutate.Base, cache, mutated: bytes, label: str, wit_extra: dict, embed: bool = True) -> str:
     import asyncio
 
     import dpapi_ng
 
     global _LOOP
-    wit = dict(wit_extra, base=base.name, mutation=label, mutated=mutated)
+    wit = dict(wit_extra, base=base.name, mutation=label)
+    if embed:
+        wit["mutated"] = mutated
     mon.KDFS.n, mon.KDFS.limit = 0, KDF_BUDGET
     _N[0] += 1
     use_async = _N[0] % 8 == 0  # every 8th mutation goes through the async variant
@@ -204,15 +212,79 @@ def run_deterministic(spec, rec: Recorder):
     rec.sample({"kind": "deterministic structure + algorithm substitutions", "bases": spec["bases"], "structure_mutations": n, "algorithm_substitutions": k})
 
 
+def run_large(spec, rec: Recorder):
+    """Authentication must not depend on the size of the content: blobs whose encrypted content is 64 KiB .. 64 MiB, with
+    flips in the first / block-boundary / middle / last ciphertext bytes, in every tag byte, in the wrapped CEK and the GCM
+    nonce, and a one-byte truncation.  (The mutated blob is not embedded in the witness: size + position reproduce it.)"""
+    import uuid as _uuid
+
+    from vf.props import online
+    from vf.ref import cms
+
+    mon.KDFS.install()
+    rng = common.rng_for(ID, spec)
+    size = spec["size"]
+    rkid = _uuid.UUID(int=rng.getrandbits(128))
+    rk = online.root_key(rng, rng.choice(common.HASHES), "DH")
+    for layout in spec["layouts"]:
+        pt = rng.randbytes(size)
+        mode = "nonce" if layout == "envelope" or size > 2**21 else "public"
+        blob = online.ref_blob(rng, rkid, rk, online.gen_sid(rng, n=2), (361, rng.randrange(32), rng.randrange(32)), mode, pt, in_envelope=(layout == "envelope"), domain="mut.test")
+        base = mutate.Base(f"large-{size}-{layout}", blob, pt, rkid, rk, mode, layout)
+        cache = mutate.offline_cache(base)
+        if execute(rec, base, cache, blob, "identity", {"size": size}, embed=False) != "same":
+            rec.inconclusive_because(f"large base blob ({size} bytes, {layout}) does not decrypt unmodified")
+            return
+        parsed = cms.parse(blob)
+        ct = parsed["enc_content"]
+        off = blob.rfind(ct)
+        if off < 0 or len(ct) != size + 16:
+            rec.inconclusive_because("cannot locate the encrypted content inside the reference blob")
+            return
+        pos = {0, 1, 15, 16, 17, 4095, 4096, 65535, 65536, 65537, size // 2, size - 17, size - 16, size - 1}
+        pos |= {k * 65536 + d for k in (1, 2, 15, 16, 17, size // 65536) for d in (-1, 0, 1)}
+        pos |= {rng.randrange(size) for _ in range(12)}
+        pos = sorted(q for q in pos if 0 <= q < size)
+        hist: t.Dict[str, int] = {}
+        for q in pos:
+            out = execute(rec, base, cache, mutate.flip(blob, (off + q) * 8 + rng.randrange(8)), f"flip in ciphertext byte {q} of {size}", {"size": size, "ct_byte": q, "layout": layout}, embed=False)
+            hist[out] = hist.get(out, 0) + 1
+            rec.count("large_ciphertext_flips")
+        for tb in range(16):
+            out = execute(rec, base, cache, mutate.flip(blob, (off + size + tb) * 8 + rng.randrange(8)), f"flip in tag byte {tb} ({size} byte content)", {"size": size, "tag_byte": tb, "layout": layout}, embed=False)
+            hist[out] = hist.get(out, 0) + 1
+            rec.count("large_tag_flips")
+        for name in ("enc_cek", "gcm_nonce"):
+            o2 = blob.find(parsed[name])
+            for _ in range(4):
+                out = execute(rec, base, cache, mutate.flip(blob, (o2 + rng.randrange(len(parsed[name]))) * 8 + rng.randrange(8)), f"flip in {name} ({size} byte content)", {"size": size, "field": name, "layout": layout}, embed=False)
+                hist[out] = hist.get(out, 0) + 1
+        out = execute(rec, base, cache, blob[:-1], f"truncate by one byte ({size} byte content)", {"size": size, "truncate_tail": 1, "layout": layout}, embed=False)
+        hist[out] = hist.get(out, 0) + 1
+        n = len(pos) + 16 + 8 + 1
+        rec.count("mutations_executed", n)
+        rec.count("large_blobs")
+        rec.range("large_content_bytes", size)
+        rec.bulk(n, n)
+        rec.sample({"kind": "large content", "size": size, "layout": layout, "mode": mode, "mutations": n, "outcomes": hist})
+        if hist.get("same", 0):
+            rec.violation("large-content-flip-ignored", f"{size} byte content, {layout}: a flip inside ciphertext / tag / wrapped CEK / nonce left the result unchanged {hist}", {"size": size, "layout": layout})
+
+
 def run_shard(spec, rec: Recorder):
     if not common.calibrate(rec, "der", "gkdi", "cms", "crypto"):
         return
-    {"flips": run_flips, "structural": run_structural, "deterministic": run_deterministic}[spec["kind"]](spec, rec)
+    {"flips": run_flips, "structural": run_structural, "deterministic": run_deterministic, "large": run_large}[spec["kind"]](spec, rec)
 
 
 def replay(body, rec: Recorder):
     w = body["witness"]
     mon.KDFS.install()
+    if str(w.get("base", "")).startswith("large-") or "size" in w:
+        sz = int(w.get("size") or str(w["base"]).split("-")[1])
+        run_large({"name": f"large-{sz}", "seed": body["seed"], "tier": body["tier"], "kind": "large", "size": sz, "layouts": ["envelope", "trailing"]}, rec)
+        rec.violations[:] = [v for v in rec.violations if v["mechanism"] == body["mechanism"]][:3]
+        return
     base = mutate.base_blobs(body["seed"], [w["base"]])[0]
     cache = mutate.offline_cache(base)
     if "bit" in w:
